@@ -105,6 +105,8 @@ class importer_init_summary:
 class import_string_summary:
     def model(self, text):
         d = opaque('document')
+        for k in range(ghost_get('import.errors', 0)):          # the import reports this many malformed cells on the importer
+            self.errors.append(opaque('error'))
         record('import_string', importer=self, text=text, result=d)
         return d
 
@@ -126,7 +128,14 @@ class generic_create:
     """a fresh Importer per call; returns (import_string(content), that importer's errors)"""
     uses = ('importer_init_summary', 'import_string_summary')
     def inputs(g):
-        return {'cls': Generic, 'content': opaque('text'), 'strict': False}
+        n = g.choice('errors reported', [0, 1, 2])
+        if g.symbolic:
+            ghost_set('import.errors', n)
+        return {'cls': Generic, 'content': opaque('text'), 'strict': g.choice('strict', [False, True]), '_n': n}
+
+    def raises(strict, n):
+        # raise_on_errors: the import is refused iff it reported a malformed cell (C12: reported, never silently dropped)
+        return {'Exception': conj(strict, n > 0)}
 
     def post_fresh_importer_document_and_errors(result, content):
         imp, calls = calls_of('Importer()'), calls_of('import_string')
@@ -139,7 +148,11 @@ class generic_read:
     """same as create, through import_file"""
     uses = ('importer_init_summary', 'import_file_summary')
     def inputs(g):
-        return {'cls': Generic, 'path': opaque('path'), 'strict': False}
+        return {'cls': Generic, 'path': opaque('path'), 'strict': g.choice('strict', [False, True])}
+
+    def raises(strict):
+        imp = calls_of('Importer()')
+        return {'Exception': conj(strict, len(imp) == 1, False if len(imp) != 1 else len(imp[0]['importer'].errors) > 0)}
 
     def post_fresh_importer_document_and_errors(result, path):
         imp, calls = calls_of('Importer()'), calls_of('import_file')
